@@ -1378,6 +1378,7 @@ def coq_family(ctx, prefix, header, fn, items, what, chunk=40):
 
 def run(ctx):
     ctx.obligations_stage(PROPS, extra_targets=['C12/Examples.vo'])
+    ctx.obligations_stage('C12/Props2.v', extra_targets=['C12/Examples2.vo'])
     ctx.assumptions += [
         'model: hand transcription of newton, dirk_step, rosenbrock_step, _constant_step_method, _adaptive_step_method '
         '(solvers.py:335-534, 684-707) into Gallina (coq/C12/Model.v); vectors are elements of a commutative ring '
@@ -1559,7 +1560,8 @@ def run(ctx):
     ctx.cov['input_distribution'] = sdist
     ctx.cov['exhaustive'] = False
     ctx.cov['rounding_bounds'] = 'see module docstring; largest observed |impl-model|/bound in step ties: %.3g' % maxdev
-    ctx.cov['partial'] = ['adaptive_driver_terminates: not proved (see NOT PROVED comment in coq/C12/Props.v)',
+    ctx.cov['partial'] = ['adaptive_driver_terminates: not proved; newton<->stage-solver composition, allclose-approximate shortcut '
+                          'premise and floating point are without theorem (clause-by-clause NOT PROVED comment in coq/C12/Props.v)',
                           'order conditions: bounded (vm_compute on the 12 translated tables, regenerated every run), orders <= 4']
     if scases:
         ctx.sample({'step_case': strip(scases[0]), 'impl': {k: sres[0].get(k) for k in ('x_new', 'x_est', 'status')}})
@@ -1585,7 +1587,12 @@ META = {
                   'newton_raises_otherwise); constant driver: one time per state, t0 + k tau, reaches t_end '
                   '(constant_driver_*); adaptive driver, for every outcome sequence: times strictly increasing from t0 to '
                   '>= t_end, only steps with r <= 1 accepted, times are partial sums of accepted steps, consecutive step '
-                  'sizes within [0.2, 5] (adaptive_driver_*). Bounded: the order conditions (rooted trees up to order 4, '
+                  'sizes within [0.2, 5] (adaptive_driver_*). Props2.v: y\'=const is integrated exactly by every consistent tableau on '
+                  'every code path of dirk_step and by rosenbrock_step (dirk_const_rhs_exact, rosenbrock_const_rhs_update/_exact); '
+                  'the drivers WITH their state as functions of the step function (Model2.v): every call, also after rejected '
+                  'and failed attempts, receives the current state and Fx = None or F(state), the constant run adds k d over '
+                  'k steps, the stepper-driven adaptive loop refines the outcome-list model (constant_driver_states, '
+                  'adaptive_driver_states). Bounded: the order conditions (rooted trees up to order 4, '
                   'ROW form for Rosenbrock) of every shipped table for its documented order, main and embedded weights, '
                   're-proved by vm_compute on the tables translated from the current solvers.py. Tie: run-time tables '
                   'compared bit-exactly with the translated ones; one step compared with the Q model on diagonal systems '
